@@ -290,12 +290,16 @@ Fixpoint prefixes_from (acc p : list string) : list (list string) :=
 Definition entries_below (d : list string) (ps : list (list string)) : list (list string) :=
   flat_map (fun p => match lstrip d p with Some r => prefixes_from [] r | None => [[".."]] end) ps.
 
-(* case = (dest, members, accepted by the implementation's check, Some listing when extraction completed) *)
-Definition check_tar (c : list string * list member * bool * option (list (list string))) : bool :=
-  let '(d, ms, acc, lst) := c in
+(* case = (dest, members, accepted by the implementation's check, regular, Some listing when extraction
+   completed).  Everything found in the working directory must be predicted by the model; for a regular
+   archive (no member below or on top of a non-directory member, hard links to file members: tarfile skips
+   members it cannot create without reporting an error) the listing is exactly the prediction. *)
+Definition check_tar (c : list string * list member * bool * bool * option (list (list string))) : bool :=
+  let '(d, ms, acc, regular, lst) := c in
   Bool.eqb (tar_check d ms) acc &&
   match lst with
-  | Some l => acc && seteqb (entries_below d (map (created d ms) ms)) l
+  | Some l => let model := entries_below d (map (created d ms) ms) in
+              acc && subsetb l model && (negb regular || subsetb model l)
   | None => true
   end.
 
